@@ -3,8 +3,16 @@ Kani's concrete playback (the harness re-executed as an ordinary test with the s
 import os, re, shutil, subprocess, time, json
 from .common import VERIF, CACHE, EVID
 
+from mirsym.hx import ALT, REPO
 KANI_DIR = os.path.join(VERIF, 'kani')
 TARGET = os.path.join(CACHE, 'kani-target')
+if ALT:
+    # development aid: a copy of the harness crate whose path dependency points at the other checkout
+    KANI_DIR = os.path.join(CACHE, 'kani-src')
+    shutil.rmtree(KANI_DIR, ignore_errors=True)
+    shutil.copytree(os.path.join(VERIF, 'kani'), KANI_DIR, ignore=shutil.ignore_patterns('target'))
+    _ct = open(os.path.join(KANI_DIR, 'Cargo.toml')).read().replace('"/repo/rust/ommx"', f'"{REPO}/rust/ommx"')
+    open(os.path.join(KANI_DIR, 'Cargo.toml'), 'w').write(_ct)
 
 
 def _env():
@@ -31,7 +39,7 @@ def _run_group(cmd, cwd, timeout):
 
 
 def run_kani(harnesses, jobs=12, timeout=1500):
-    shutil.copy(os.path.join(os.environ.get('VERIF_REPO', '/repo'), 'Cargo.lock'), os.path.join(KANI_DIR, 'Cargo.lock'))
+    shutil.copy(os.path.join(REPO, 'Cargo.lock'), os.path.join(KANI_DIR, 'Cargo.lock'))
     cmd = ['cargo', 'kani', '--target-dir', TARGET, '-j', str(jobs), '--output-format', 'terse']
     for h in harnesses:
         cmd += ['--harness', h]
